@@ -80,22 +80,36 @@ def _mode_formula(test: ast.AST):
 
 
 def _emissions(ctx, rid, f):
-    """Path-sensitive evaluation of add_var_hist: for every non-raising path the branch decisions (as a formula over the step mode)
-    and the emitted code-line templates with local string variables spliced in."""
-    from sympy import true, And, Not
+    """Path-sensitive evaluation of add_var_hist: for every non-raising path the branch decisions (as a formula over the step mode;
+    tests about anything else - e.g. whether a look-up was already emitted - become free boolean symbols, so both arms are explored)
+    and the emitted code-line templates with local string variables spliced in.  `x = a if c else b` forks the path like an `if`."""
+    from sympy import true, And, Not, Symbol
     from engine.util import enumerate_paths
     cfg = ctx.cfg(f)
     out = []
+    opaque = {}
+
+    def formula(test):
+        fm = _mode_formula(test)
+        if fm is None:
+            if any(isinstance(n, ast.Name) and n.id in ("dt", "dt_adapt") for n in ast.walk(test)):
+                raise AnalysisError(f"{rid}: {f.qual}: unrecognised step-mode test `{ast.unparse(test)}`")
+            key = ast.unparse(test)
+            neg = key[4:] if key.startswith("not ") else None
+            if neg is not None and neg in opaque:
+                return Not(opaque[neg])
+            fm = opaque.setdefault(key, Symbol(f"opaque_{len(opaque)}"))
+        return fm
     for path in enumerate_paths(cfg):
         if path[-1] is not cfg.EXIT:
             continue
-        env, cond, lines = {}, true, []
+        states = [({}, true, [], [])]            # env, cond, lines, stores
 
-        def tmpl(e):
+        def tmpl(e, env):
             if isinstance(e, ast.Constant) and isinstance(e.value, str):
                 return e.value
             if isinstance(e, ast.Name) and e.id in env:
-                t = tmpl(env[e.id])
+                t = tmpl(env[e.id], env)
                 return t if t is not None else None
             if isinstance(e, ast.JoinedStr):
                 parts = []
@@ -103,31 +117,174 @@ def _emissions(ctx, rid, f):
                     if isinstance(v, ast.Constant):
                         parts.append(str(v.value))
                     else:
-                        inner = tmpl(v.value) if isinstance(v.value, ast.Name) and v.value.id in env else None
+                        inner = tmpl(v.value, env) if isinstance(v.value, ast.Name) and v.value.id in env else None
                         parts.append(inner if inner is not None else "⟨" + ast.unparse(v.value) + "⟩")
                 return "".join(parts)
             if isinstance(e, ast.BinOp) and isinstance(e.op, ast.Add):
-                l, r = tmpl(e.left), tmpl(e.right)
+                l, r = tmpl(e.left, env), tmpl(e.right, env)
                 return l + r if l is not None and r is not None else None
             return None
         for k, st in enumerate(path):
-            if isinstance(st, ast.If) and k + 1 < len(path):
-                labels = cfg.g[st][path[k + 1]]["labels"]
-                fm = _mode_formula(st.test)
-                if fm is None:
-                    raise AnalysisError(f"{rid}: {f.qual}: unrecognised step-mode test `{ast.unparse(st.test)}`")
-                cond = And(cond, fm if "true" in labels else Not(fm))
-            elif isinstance(st, ast.Assign) and len(st.targets) == 1 and isinstance(st.targets[0], ast.Name):
-                env[st.targets[0].id] = st.value
-            elif isinstance(st, ast.stmt) and not isinstance(st, (ast.For, ast.While, ast.With, ast.Try)):
-                for c in ast.walk(st):
-                    if isinstance(c, ast.Call) and call_name(c) == "add_code_line" and c.args:
-                        t = tmpl(c.args[0])
-                        if t is None:
-                            raise AnalysisError(f"{rid}: {f.qual}: emitted line is not a string template: {ast.unparse(c.args[0])[:80]}")
-                        lines.append((st, t, dict(env)))
-        out.append((cond, lines, cfg.path_str(path)))
+            nxt = []
+            for env, cond, lines, stores in states:
+                if isinstance(st, ast.If) and k + 1 < len(path):
+                    labels = cfg.g[st][path[k + 1]]["labels"]
+                    fm = formula(st.test)
+                    nxt.append((env, And(cond, fm if "true" in labels else Not(fm)), lines, stores))
+                elif isinstance(st, ast.Assign) and len(st.targets) == 1 and isinstance(st.targets[0], ast.Name):
+                    if isinstance(st.value, ast.IfExp):
+                        fm = formula(st.value.test)
+                        for arm, c2 in ((st.value.body, fm), (st.value.orelse, Not(fm))):
+                            e2 = dict(env)
+                            e2[st.targets[0].id] = arm
+                            nxt.append((e2, And(cond, c2), lines, stores))
+                    else:
+                        e2 = dict(env)
+                        e2[st.targets[0].id] = st.value
+                        nxt.append((e2, cond, lines, stores))
+                elif isinstance(st, ast.Assign) and len(st.targets) == 1 and isinstance(st.targets[0], ast.Subscript):
+                    nxt.append((env, cond, lines, stores + [(st, dict(env))]))
+                elif isinstance(st, ast.stmt) and not isinstance(st, (ast.For, ast.While, ast.With, ast.Try)):
+                    new_lines = list(lines)
+                    for c in ast.walk(st):
+                        if isinstance(c, ast.Call) and call_name(c) == "add_code_line" and c.args:
+                            t = tmpl(c.args[0], env)
+                            if t is None:
+                                raise AnalysisError(f"{rid}: {f.qual}: emitted line is not a string template: {ast.unparse(c.args[0])[:80]}")
+                            new_lines.append((st, t, dict(env)))
+                    nxt.append((env, cond, new_lines, stores))
+                else:
+                    nxt.append((env, cond, lines, stores))
+            states = nxt
+        for env, cond, lines, stores in states:
+            out.append((cond, lines, cfg.path_str(path), stores))
     return out
+
+
+_KEY_REPORTED = None
+
+
+def _shared_lookup(ctx, rid, f, cls, lines, stores):
+    """Shared history look-ups: `Y = hist(ARG)` emitted once and `lhs = <Y or table[K]>[IDX]` per delayed term, the emitted name kept in
+    a table on the backend under a key K.  Returns None (not this form), "hit" (a path that emits only the indexed read of a stored
+    look-up) or a synthetic (stmt, "lhs = hist(ARG)[IDX]", env) line for the path that emits both.  The key obligation - two terms
+    share a look-up only if their emitted delay text is the same - is reported once per function."""
+    def split_read(t):
+        m = re.match(r"^\s*(\S+)\s*=\s*(.*?)\[([^\[\]]*|⟨[^⟩]*⟩)\]\s*$", t)
+        if not m or "hist(" in m.group(2):
+            return None
+        return m.groups()
+
+    def split_lookup(t):
+        m = re.match(r"^\s*(\S+)\s*=\s*hist\((.*)\)\s*$", t)
+        return m.groups() if m else None
+
+    def table_read(src):
+        """the read source as an expression when it is one hole ⟨self.table[K]⟩"""
+        m = re.match(r"^⟨([^⟩]*)⟩$", src.strip())
+        if not m:
+            return None
+        try:
+            e = ast.parse(m.group(1), mode="eval").body
+        except SyntaxError:
+            return None
+        return e if isinstance(e, ast.Subscript) and isinstance(e.value, ast.Attribute) else None
+
+    def text_of(e, env):
+        if isinstance(e, ast.Name) and e.id in env:
+            return text_of(env[e.id], env)
+        if isinstance(e, ast.Constant) and isinstance(e.value, str):
+            return e.value
+        if isinstance(e, ast.JoinedStr):
+            return "".join(str(v.value) if isinstance(v, ast.Constant) else "⟨" + ast.unparse(v.value) + "⟩" for v in e.values)
+        return None
+    if len(lines) == 1 and _hist_template(lines[0][1]) is None and split_read(lines[0][1]):
+        _lhs, src, _idx = split_read(lines[0][1])
+        e = table_read(src)
+        if e is not None:
+            _key_obligation(ctx, rid, f, cls, e, lines[0][2])
+            return "hit"
+        return None
+    if len(lines) == 2 and split_lookup(lines[0][1]) and _hist_template(lines[0][1]) is None and split_read(lines[1][1]):
+        ytext, arg = split_lookup(lines[0][1])
+        lhs, src, idx = split_read(lines[1][1])
+        env = lines[1][2]
+        e = table_read(src)
+        if src.strip() == ytext.strip():
+            pass
+        elif e is not None:
+            # the table entry read here must be the one this path stored: table[K] = <the emitted look-up's name> with the same K
+            ok = any(isinstance(st.targets[0], ast.Subscript) and ast.unparse(st.targets[0].value) == ast.unparse(e.value)
+                     and ast.unparse(st.targets[0].slice) == ast.unparse(e.slice) and text_of(st.value, env_) == ytext.strip()
+                     for st, env_ in stores)
+            if not ok:
+                raise AnalysisError(f"{rid}: {f.qual}: the look-up read `{src}` is not the one stored on this path (unrecognised form)")
+            _key_obligation(ctx, rid, f, cls, e, env)
+        else:
+            return None
+        return (lines[0][0], f"{lhs} = hist({arg})[{idx}]", env)
+    return None
+
+
+def _key_obligation(ctx, rid, f, cls, table_read: ast.Subscript, env):
+    global _KEY_REPORTED
+    if _KEY_REPORTED == (id(ctx), f.qual):
+        return
+    _KEY_REPORTED = (id(ctx), f.qual)
+    K = table_read.slice
+    for _ in range(4):
+        if isinstance(K, ast.Name) and K.id in env:
+            K = env[K.id]
+    P = "delay"
+    cands = []          # (value expression, parameter name standing for the delay)
+    if isinstance(K, ast.Call) and isinstance(K.func, ast.Attribute) and len(K.args) == 1 and isinstance(K.args[0], ast.Name) and K.args[0].id == P \
+            and call_name(K) not in ("_process_delay", "str", "repr", "id", "hash", "float"):
+        m = ctx.repo.lookup_method(cls, call_name(K))
+        if m is None:
+            raise AnalysisError(f"{rid}: {f.qual}: cannot resolve the key helper `{ast.unparse(K)}`")
+        pn = [p for p in m.params if p not in ("self", "cls")]
+        if len(pn) != 1:
+            raise AnalysisError(f"{rid}: {m.qual}: key helper has an unrecognised signature")
+        rets = [r.value for r in walk_shallow(m.node) if isinstance(r, ast.Return) and r.value is not None]
+        for r in rets:
+            for arm in ([r.body, r.orelse] if isinstance(r, ast.IfExp) else [r]):
+                cands.append((arm, pn[0]))
+    else:
+        for arm in ([K.body, K.orelse] if isinstance(K, ast.IfExp) else [K]):
+            cands.append((arm, P))
+    if not cands:
+        raise AnalysisError(f"{rid}: {f.qual}: the key of the shared look-up table is not recognised: {ast.unparse(table_read.slice)}")
+
+    def by_value(v, p):
+        return any(isinstance(n, ast.Attribute) and n.attr in ("value", "values") and isinstance(n.value, ast.Name) and n.value.id == p
+                   for n in ast.walk(v))
+
+    def identity_like(v, p):
+        if isinstance(v, ast.Tuple):
+            return any(identity_like(x, p) for x in v.elts) and not any(by_value(x, p) for x in v.elts)
+        if isinstance(v, ast.Name) and v.id in (p, "d"):
+            return True
+        if isinstance(v, ast.Attribute) and v.attr in ("name", "label") and isinstance(v.value, ast.Name) and v.value.id == p:
+            return True
+        if isinstance(v, ast.Call) and call_name(v) in ("id", "str", "repr", "hash", "_process_delay") and v.args and isinstance(v.args[0], ast.Name) \
+                and v.args[0].id == p:
+            return True
+        return False
+
+    def literal_like(v, p):
+        return isinstance(v, ast.Call) and call_name(v) in ("float", "str", "repr") and v.args and isinstance(v.args[0], ast.Name) and v.args[0].id == p
+    bad = [v for v, p in cands if by_value(v, p)]
+    if bad:
+        ctx.violation(rid, f, f.node, f"history look-ups are shared under the key `{ast.unparse(bad[0])[:60]}`, the delay's compile-time VALUE: two delay "
+                                      f"parameters with equal defaults get one look-up `hist(t - <first>)`, although the generated function takes both as "
+                                      f"arguments - a call with one of them changed reads the wrong point of the past",
+                      label="shared history look-ups are keyed by the delay's identity")
+    elif all(identity_like(v, p) or literal_like(v, p) for v, p in cands) and any(identity_like(v, p) for v, p in cands):
+        ctx.ok(rid, f, f.node, "shared history look-ups are keyed by the delay's identity (name / object / emitted text)",
+               {"key": [ast.unparse(v) for v, _ in cands]}, label="shared history look-ups are keyed by the delay's identity")
+    else:
+        raise AnalysisError(f"{rid}: {f.qual}: cannot decide whether the key `{ast.unparse(table_read.slice)}` of the shared look-up table "
+                            f"identifies the delay (unrecognised form: {[ast.unparse(v) for v, _ in cands]})")
 
 
 def r1_add_var_hist(ctx, rid):
@@ -150,15 +307,21 @@ def r1_add_var_hist(ctx, rid):
         ems = _emissions(ctx, rid, f)
         reported = set()
         for mode, mform in MODES.items():
-            feas = [(lines, ps) for cond, lines, ps in ems if satisfiable(And(cond, mform))]
+            feas = [(lines, ps, stores) for cond, lines, ps, stores in ems if satisfiable(And(cond, mform))]
             if not feas:
                 raise AnalysisError(f"{rid}: {f.qual}: no path for the {mode} step mode")
-            for lines, ps in feas:
-                if len(lines) != 1:
+            for lines, ps, stores in feas:
+                shared = _shared_lookup(ctx, rid, f, cls, lines, stores)
+                if shared == "hit":
+                    continue            # a path that only indexes a look-up emitted by an earlier call: decided by the key obligation
+                if shared is None and len(lines) != 1:
                     ctx.violation(rid, f, f.node, f"a path taken in {mode} step mode emits {len(lines)} history look-ups instead of one",
                                   {"path": ps}, label=f"{mode} path emits one look-up")
                     continue
-                st, tpl, env = lines[0]
+                if shared is not None:
+                    st, tpl, env = shared
+                else:
+                    st, tpl, env = lines[0]
                 parsed = _hist_template(tpl)
                 if parsed is None:
                     raise AnalysisError(f"{rid}: {f.qual}: emitted line `{tpl}` is not of the form lhs = hist(arg)[idx]")
